@@ -8,7 +8,7 @@ sys.path.insert(0, os.path.join(os.path.dirname(os.path.abspath(__file__)), ".."
 import cast
 import engine
 import nativelib
-from common import SRC, VERIF, Undecided, log, run
+from common import OUTROOT, SRC, VERIF, Undecided, log, run
 from engine import Harness, UnitSpec
 from propcheck import Check
 
@@ -31,17 +31,48 @@ def main(argv):
                     [("logger.cpp", "libcellml::" + f) for f in LOGGER_FNS] + [("issue.cpp", "libcellml::Issue::level")],
                     string_model="sid", models=("pointwise.h",), spec_header="specs/C15/spec.h",
                     harness_file="specs/C15/harness.c")
-    c.units = [unit]
+    IMP = ["fetchModel", "fetchImportSource", "fetchComponent", "fetchUnits"]
+    imp = UnitSpec("importer", ["importer.cpp"], [("importer.cpp", "libcellml::Importer::ImporterImpl::" + f) for f in IMP],
+                   string_model="sid", models=("countonly.h", "pointwise.h"), spec_header="specs/C15/importer.h",
+                   harness_file="specs/C15/importer_harness.c",
+                   rec_stubs=["Importer_ImporterImpl_fetchComponent", "Importer_ImporterImpl_fetchUnits"])
+    look = UnitSpec("lookup", ["annotator.cpp"], [("annotator.cpp", "libcellml::Annotator::AnnotatorImpl::exists"),
+                                                   ("annotator.cpp", "libcellml::Annotator::item(std::string const&)"),
+                                                   ("annotator.cpp", "libcellml::Annotator::item(std::string const&, unsigned long)")],
+                    string_model="sid", models=("countonly.h", "pointwise.h"), spec_header="specs/C15/lookup.h", harness_file="specs/C15/lookup_harness.c")
+    c.units = [unit, imp, look]
+    DL = {"HEAP_N": 8, "PW_CAP": 1048576, "PW_NO_H": 1, "VEC_VAL_OK(v)": "((v)!=0&&(v)<6)"}
+    lstubs = sorted(set(m.group(1) for m in re.finditer(r"^#define __FC_(\w+)", open(os.path.join(VERIF, "specs/C15/lookup.h")).read(), re.M)))
+
+    def HL(name, enforce, carries):
+        return ("lookup", Harness("h_" + name, "U", enforce=enforce, replace=[x for x in lstubs if x != enforce], defines=DL, backend="sat", timeout=600, carries=carries))
     D = {"HEAP_N": 8, "PW_CAP": 1048576, "PW_NO_H": 1}
+    DI = {"HEAP_N": 16, "PW_CAP": 1048576, "PW_NO_H": 1, "VMAP_VAL_OK(v)": "((v)<8)", "VEC_VAL_OK(v)": "((v)<8)"}
+    stubs = sorted(set(m.group(1) for m in re.finditer(r"^#define __FC_(\w+)", open(os.path.join(VERIF, "specs/C15/importer.h")).read(), re.M)))
+    stubs += ["Importer_ImporterImpl_fetchUnits__rec", "Importer_ImporterImpl_fetchComponent__rec"]
+
+    def HI(name, carries):
+        enforce = "Importer_ImporterImpl_" + name
+        return ("importer", Harness("h_" + name, "U", enforce=enforce, replace=[x for x in stubs if x != enforce], defines=DI, backend="sat",
+                                    timeout=1500, loop_contracts=True, object_bits=13, mem_gb=40, carries=carries))
 
     def H(name, enforce, carries):
-        return ("logger", Harness("h_" + name, "U", enforce=enforce, defines=D, backend="z3", timeout=600, carries=carries))
+        return ("logger", Harness("h_" + name, "U", enforce=enforce, defines=D, backend="z3|cvc5", timeout=900, carries=carries))
     c.harnesses = [
-        H("addIssue_error", "Logger_LoggerImpl_addIssue", "adding an ERROR keeps the list/level-index invariant; only the error index list grows, by the new index"),
+        H("addIssue_error", "Logger_LoggerImpl_addIssue", "adding an ERROR keeps the list/level-index invariant; only the error index list grows, by the new index; TAIL(t) becomes TAIL(t+1)"),
         H("addIssue_warning", "Logger_LoggerImpl_addIssue", "same for a WARNING"),
         H("addIssue_message", "Logger_LoggerImpl_addIssue", "same for a MESSAGE (default branch)"),
         H("removeAllIssues", "Logger_LoggerImpl_removeAllIssues", "each call starts from an empty, coherent issue list"),
-        H("removeError", "Logger_LoggerImpl_removeError", "removing the last issue (an error) keeps every other entry in place"),
+        H("removeError", "Logger_LoggerImpl_removeError", "removeError(last error) when the last t >= 1 errors are the last t issues (TAIL): coherent afterwards, TAIL(t-1), every other entry in place"),
+        H("level_frame", None, "lemma: changing the level of an issue that is not listed keeps the logger coherent (setLevel before addIssue)"),
+        HI("fetchModel", "importer.cpp fetchModel: a false result is explained; THE ERRORS FORWARDED FROM THE PARSER ARE THE LAST ISSUES OF THE LIST (what the removeError loops need); "
+                         "levels are set only on issues not yet listed; parser->message(0) exists when used"),
+        HI("fetchImportSource", "importer.cpp fetchImportSource: same contract as fetchModel (caller of it)"),
+        HI("fetchComponent", "importer.cpp fetchComponent: every removeError call deletes the last issue (precondition of removeError at the call site, every iteration); false is explained; recursion and fetchUnits by contract"),
+        HI("fetchUnits", "importer.cpp fetchUnits: likewise"),
+        HL("exists", "Annotator_AnnotatorImpl_exists", "annotator.cpp exists(id, index, unique): true only if item number `index` with that identifier exists (exactly one when unique); false comes with an issue"),
+        HL("item", "Annotator_item__s", "Annotator::item(id): an item carrying the id, or the UNDEFINED item together with an issue (all typed unique lookups go through it)"),
+        HL("item_index", "Annotator_item__s_sz", "Annotator::item(id, index): likewise, and items(id) is never indexed out of range"),
         H("issueCount", "Logger_issueCount", "issueCount() == errorCount()+warningCount()+messageCount()"),
         H("errorCount", "Logger_errorCount", "errorCount() is the length of the error index list"),
         H("warningCount", "Logger_warningCount", "warningCount()"),
@@ -52,6 +83,12 @@ def main(argv):
         H("message", "Logger_message", "message(i) likewise"),
     ]
     c.trusted_base = [
+        "importer unit: the logger is summarised by ghost state (lengths, g_tail, g_listed, levels); each client contract in specs/C15/importer.h is the "
+        "logger-unit contract of specs/C15/spec.h read through that summary (addIssue: TAIL(t)->TAIL(t+1)/TAIL(0); removeError: needs t >= 1; setLevel: only unlisted issues) - "
+        "the correspondence is argued in DESIGN 3/C15, not machine-checked",
+        "importer unit: vectors are count-only and the model library is an abstract map (over-approximations: contents unconstrained); file system and parser are "
+        "contract stubs (file may or may not open, parser's logger coherent after parseModel); about 35 getters are pure stubs returning valid object ids",
+        "importer unit: at most 7 issues created by one invocation frame; the issue list stays below 2^19 entries (capacity assumptions)",
         "pointwise copy-on-write std::vector model (models/pointwise.h): structural mutations constrained at the ghost indices only",
         "object ids fixed to canonical constants in the harnesses (lowered code is invariant under renaming of object ids)",
         "containers hold fewer than 2^20 elements; allocation never fails",
@@ -62,9 +99,9 @@ def main(argv):
                      "representation invariant of Logger::LoggerImpl for every mutator and of every accessor's contract, enforced with "
                      "goto-instrument --dfcc, decided by z3 (QF_AUFBV). ReferenceRule table completeness is a finite AST comparison "
                      "confirmed natively for every enumerator.")
-    c.not_covered = ["'a failing result is always explained' for parseModel/analyseModel/resolveImports (callers not lowered)",
+    c.not_covered = ["'a failing result is always explained' for parseModel/analyseModel and the annotator's assign* functions (not lowered); resolveImports only below its top level",
                      "AnyCellmlElement typed accessors vs stored std::any (types.cpp) - not lowered yet",
-                     "the two removeError call sites in importer.cpp establishing its precondition - not lowered yet"]
+                     "Importer::resolveImports / flattenModel top level (the callers of fetchComponent / fetchUnits)"]
     exe = {}
 
     def native(chk):
@@ -80,6 +117,20 @@ def main(argv):
             raise Undecided("native logger simulation did not run: rc=%s %s" % (rc, (out + err)[-300:]))
         chk.native_facts.append(("random histories on the real Logger::LoggerImpl agree with an independent shadow list", m.group(1) == "0", out.strip()[-200:]))
         chk.sim_out = out.strip()
+        idir = os.path.join(d, "imports")
+        os.makedirs(idir, exist_ok=True)
+        rc, out, err, _ = run([exe["x"], "imports", idir], timeout=300)
+        if "IMPORTS" not in out:
+            out = "IMPORTS violates=1 scenario=(crash) why=the real code terminated abnormally rc=%s %s" % (rc, (err or "")[-200:].replace("\n", " "))
+        chk.imp_out = out.strip()
+        rc, out, err, _ = run([exe["x"], "lookups"], timeout=300)
+        if "LOOKUPS" not in out:
+            out = "LOOKUPS violates=1 scenario=(crash) why=the driver terminated abnormally rc=%s %s" % (rc, (err or "")[-200:].replace("\n", " "))
+        chk.look_out = out.strip().split("\n")[-1]
+        chk.native_facts.append(("30 annotator lookups on the real code (0/1/2 items carry the id; unique and indexed 0..3; item() and component()), each in its own process: "
+                                 "no crash, a failing lookup has an issue, a successful one returns an item with that id", "violates=0" in chk.look_out, chk.look_out[-300:]))
+        chk.native_facts.append(("64 import scenarios on the real Importer (CellML 1.1/2.0 sources, parse errors related/unrelated, strict/permissive, missing file): "
+                                 "accessors coherent, a false result has an issue", "violates=0" in out, out.strip()[-300:]))
         # ReferenceRule table: every enumerator is a key with >= 4 strings (finite, complete; from the AST)
         tu = cast.load_tu("issue.cpp")
         enum_n = None
@@ -97,7 +148,7 @@ def main(argv):
         chk.native_facts.append(("referenceHeading()/url() retrievable for every ReferenceRule enumerator (%d, read from the AST)" % len(enum_n),
                                  m.group(3) == "0", out.strip()[-300:]))
         if m.group(3) != "0":
-            path = os.path.join(VERIF, "out", "replay", "C15", "rule_table.json")
+            path = os.path.join(OUTROOT, "out", "replay", "C15", "rule_table.json")
             from common import write_json
             write_json(path, {"property": "C15", "failed_obligation": "every ReferenceRule value has a heading and URL (map::at must not throw)",
                               "output": out, "how_to_rerun": "%s rules %d" % (exe["x"], len(enum_n) - 1)})
@@ -106,6 +157,18 @@ def main(argv):
     c.pre_steps = [native]
 
     def replay(chk, h, o, ce):
+        if h.name in ("h_exists", "h_item", "h_item_index"):
+            out = getattr(chk, "look_out", "")
+            m = re.search(r"LOOKUPS violates=1 scenario=(\S+) why=(.*)", out)
+            if m:
+                return True, "real Annotator, %s: %s" % (m.group(1), m.group(2)), "lookup=" + m.group(1), {"lookups": out}
+            return None, "the 30 lookup scenarios on the real code found no unexplained or crashing lookup", None, {"lookups": out, "ghost": ce}
+        if h.name.startswith("h_fetch"):
+            out = getattr(chk, "imp_out", "")
+            m = re.search(r"IMPORTS violates=1 scenario=(\S+) why=(.*)", out)
+            if m:
+                return True, "real Importer, scenario %s: %s" % (m.group(1), m.group(2)), "imports=" + m.group(1), {"imports": out}
+            return None, "the 64 import scenarios on the real code found no incoherent importer state", None, {"imports": out, "ghost": ce}
         out = getattr(chk, "sim_out", "")
         m = re.search(r"SIM violates=1 history=(\S+) why=(.*)", out)
         if m:
